@@ -321,3 +321,47 @@ func init() {
 		}, sp
 	}})
 }
+
+func init() {
+	// Q7: two submitters ordered by happens-before (P1 signals P2 after its With returned).
+	reg(&Scenario{Name: "Q7", Make: func(cfg Cfg) (func(), *Spec) {
+		sp := &Spec{MustRun: []string{"W1", "W2", "R1"}, Closes: -1, Order: [][2]string{{"W1", "W2"}}}
+		if cfg.Group == "parallel" {
+			sp.Order = nil
+		}
+		return func() {
+			w := NewWorld(cfg)
+			sdone := make(chan struct{}, 1)
+			w.StartServe(sdone)
+			done := make(chan struct{}, 4)
+			hb := make(chan struct{}, 1)
+			spawn("P1", done, func() { w.With("W1", w.A("1")); vsched.Send(hb, struct{}{}) })
+			spawn("P2", done, func() { vsched.Recv(hb); w.WithGroup("W2", w.RefGroup(w.A("1"))) })
+			spawn("N", done, func() { w.Req("get."+w.A("1"), "R1") })
+			join(done, 3)
+			vsched.AwaitQuiescence()
+			vsched.Emit(Mon, "quiesced")
+		}, sp
+	}})
+
+	// S6: a straggling submitter spans a full stop/start cycle.
+	reg(&Scenario{Name: "S6", Make: func(cfg Cfg) (func(), *Spec) {
+		sp := &Spec{Shutdown: true, Closes: 1}
+		return func() {
+			w := NewWorld(cfg)
+			sdone := make(chan struct{}, 2)
+			w.StartServe(sdone)
+			done := make(chan struct{}, 4)
+			spawn("P", done, func() { w.With("W1", w.A("1")); w.With("W2", w.A("1")) })
+			shutdown(w)
+			vsched.Recv(sdone)
+			vsched.Emit(Mon, "epoch2")
+			w.StartServe(sdone)
+			join(done, 1)
+			vsched.AwaitQuiescence()
+			shutdown(w)
+			vsched.Recv(sdone)
+			vsched.AwaitQuiescence()
+		}, sp
+	}})
+}
